@@ -56,6 +56,9 @@ func (ex *Exec) unop(fr *Frame, instr *ssa.UnOp, x Value) Value {
 	case token.ARROW:
 		return ex.chanRecv(fr, x, instr.CommaOk, instr.Pos())
 	case token.MUL:
+		if o, isO := x.(Opaque); isO {
+			return o
+		}
 		p, ok := x.(*Value)
 		if !ok {
 			ex.unsupported("load through %T", x)
